@@ -226,6 +226,13 @@ func (ms MultipleSubs) Sanitize() error {
 	return nil
 }
 
+func (as AlternateSubs) Sanitize() error {
+	if exp, got := as.Coverage.Len(), len(as.AlternateSets); exp > got {
+		return fmt.Errorf("GSUB: invalid AlternateSubs sets count (%d > %d)", exp, got)
+	}
+	return nil
+}
+
 func (ls LigatureSubs) Sanitize() error {
 	if exp, got := ls.Coverage.Len(), len(ls.LigatureSets); exp != got {
 		return fmt.Errorf("GSUB: invalid LigatureSubs sets count (%d != %d)", exp, got)
@@ -351,6 +358,13 @@ func (pp *PairPos) Sanitize() error {
 		if exp, got := f2.ClassDef2.Extent(), int(f2.class2Count); exp != got {
 			return fmt.Errorf("GPOS: invalid PairPos2 class2 count (%d != %d)", exp, got)
 		}
+	}
+	return nil
+}
+
+func (cp *CursivePos) Sanitize() error {
+	if exp, got := cp.coverage.Len(), len(cp.EntryExits); exp > got {
+		return fmt.Errorf("GPOS: invalid CursivePos records count (%d > %d)", exp, got)
 	}
 	return nil
 }
